@@ -25,7 +25,7 @@ Definition hc_is_sc (k : hcont) : bool := match k with HcSc _ _ => true | _ => f
 
 Definition io_holds_o (p : iopc) : bool :=
   match p with
-  | IoSc1 _ _ | IoScF _ _ | IoScRel _ _ | IoScX1
+  | IoSc1 _ _ | IoScF _ _ | IoScRel _ _
   | IoFlL | IoNfy | IoNfy2 | IoRelL | IoRelX
   | IoHCb _ | IoHCc _ | IoHCd _ | IoHCe _ => true
   | IoHCx k => hc_locked k
@@ -34,14 +34,14 @@ Definition io_holds_o (p : iopc) : bool :=
 Definition io_holds_r (p : iopc) : bool :=
   match p with
   | IoRcv1 _ _ | IoRcv2 _ _ | IoRcvLoop _ _ | IoRcvApp _ _ | IoRcvAdd _ _
-  | IoScA _ _ | IoSc1 _ _ | IoScF _ _ | IoScRel _ _ | IoScX1 | IoScX2 | IoRcvRel _ => true
+  | IoScA _ _ | IoSc1 _ _ | IoScF _ _ | IoScRel _ _ | IoRcvRel _ => true
   | IoHC k | IoHCb k | IoHCc k | IoHCd k | IoHCe k | IoHCx k => hc_is_sc k
   | _ => false
   end.
 (* inside send_continue called from received() *)
 Definition io_sc (p : iopc) : bool :=
   match p with
-  | IoScA _ _ | IoSc1 _ _ | IoScF _ _ | IoScRel _ _ | IoScX1 => true
+  | IoScA _ _ | IoSc1 _ _ | IoScF _ _ | IoScRel _ _ => true
   | IoHC k | IoHCb k | IoHCc k | IoHCd k | IoHCe k | IoHCx k => hc_is_sc k
   | _ => false
   end.
@@ -130,7 +130,11 @@ Definition act_tot (p : wpc) : bool :=
   | _ => false
   end.
 Definition act_wc (p : wpc) : bool :=
-  match p with WWsP | WHwEP _ => true | _ => false end.
+  match p with
+  | WWsP | WHwEP _ => true
+  | WScRel | WK7 | WEnd1 | WEnd2 => true     (* flush error inside send_continue in service() *)
+  | _ => false
+  end.
 Definition act_cwf (p : wpc) : bool :=
   match p with WCl3 | WCl4 | WEnd1 | WEnd2 => true | _ => false end.
 
@@ -187,8 +191,7 @@ Definition inv_b (c : cfg) (s : state) : bool :=
   g6_b c s &&
   forallb_i (winv_b c s) 0 (ws s).
 
-(* the invariant is claimed for runs in which no worker-side send_continue has raised *)
-Definition inv_ok (c : cfg) (s : state) : bool := taint s || inv_b c s.
+Definition inv_ok (c : cfg) (s : state) : bool := inv_b c s.
 
 (* quiescence in the narrow sense of the property: the I/O thread sleeps in select,
    every worker is parked on queue_cv or on outbuf_lock's condition *)
